@@ -155,7 +155,7 @@ def handleParse (s : Sess) (i : Nat) (op impl : Json) (line2 : Option Json := no
               -- once a history has involved a field unknown to the library the two builds may hold different caches
               -- (the build without the feature drops the sets after an undecodable one): equality is required only before that
               let tainted := ((s.sticky.lookup p).getD []).contains "c17-unknown-seen"
-              [("C17", (tainted || Findings.usesUnknown c a2.state || Findings.usesUnknown c before || Findings.reportsUnknownTemplate c a2.pkts || same) && Findings.noUnknownEntries c a.pkts)]
+              [("C17", (tainted || Findings.usesUnknown c a2.state || Findings.usesUnknown c before || Findings.reportsUnknownTemplate c a2.pkts || same) && Findings.noUnknownEntries c a.pkts && Findings.noRecordsOfUnknownTemplates c before a.state a.pkts)]
         let jsons : List Json := match impl.getObjVal? "json" with | .ok (.arr xs) => xs.toList | _ => []
         let c16 : List (String × Bool) := if wants op "json" then [("C16", a.outcome != "done" || Preds.jsonAllOk c a.pkts jsons)] else []
         let alloc := getNatD impl "alloc" 0
